@@ -36,6 +36,8 @@ type Check struct {
 	Level string // exploration | fault_enumeration | model_checking
 	// Workers > 0: the check is run as that many worker *processes* (0 = in-process, -1 = NumCPU).
 	Workers int
+	// Prepare (optional) runs once in the parent before the workers start (e.g. builds the oracle cache).
+	Prepare func(c *Ctx) error
 	// Run enumerates the bounded space. It is called once per worker with c.Shard/c.NShards set.
 	Run func(c *Ctx)
 	// Replay re-executes one recorded case (the "case" member of a replay file) without the explorer.
@@ -366,6 +368,12 @@ func runCheck(id, tier string) int {
 			nw = n
 		}
 	}
+	if ch.Prepare != nil {
+		if err := ch.Prepare(c); err != nil {
+			fmt.Fprintf(os.Stderr, "HARNESS-ERROR: %s prepare: %v\n", id, err)
+			return 3
+		}
+	}
 	if nw == 0 {
 		runGuarded(ch, c)
 	} else {
@@ -486,7 +494,20 @@ func (c *Ctx) finish(ch *Check) int {
 	for _, s := range ksigs {
 		fmt.Printf("KNOWN-FINDING: property=%s %s [%s]\n", c.ID, c.kf.Describe(c.ID, s), s)
 	}
-	// violations → replay files
+	// violations → replay files (at most 12 after merging workers, distinct signatures first)
+	if len(c.viol) > 12 {
+		var first, rest []Violation
+		seenSig := map[string]bool{}
+		for _, v := range c.viol {
+			if !seenSig[v.Sig] {
+				seenSig[v.Sig] = true
+				first = append(first, v)
+			} else {
+				rest = append(rest, v)
+			}
+		}
+		c.viol = append(first, rest...)[:12]
+	}
 	rdir := filepath.Join(VerifDir, "replays", c.ID)
 	for i := range c.viol {
 		v := &c.viol[i]
